@@ -182,7 +182,8 @@ Record oret := mkORet {
 Inductive observed := OErr (e : errk) | OOk (rets : list oret) (final : list (list Q)).
 
 Record ucase := mkCase {
-  k_var : variant; k_uf : ufid; k_nout : nat; k_rdt : list dt; k_oracle : res (list narrQ);
+  k_var : variant; k_direct : bool (* __array_ufunc__ called directly: no raw half *);
+  k_uf : ufid; k_nout : nat; k_rdt : list dt; k_oracle : res (list narrQ);
   k_store : list narrQ;
   k_self : operandQ; k_meth : meth; k_ins : list operandQ; k_kw : kwargs;
   k_outs : list (option operandQ);
@@ -291,4 +292,4 @@ Definition check_odl (k : ucase) : bool :=
   outcome_ok (length (k_store k)) (k_outs k) (run_odl k) (k_odl k).
 Definition check_raw (k : ucase) : bool :=
   outcome_ok (length (k_store k)) (map (option_map strip) (k_outs k)) (run_raw k) (k_raw k).
-Definition check (k : ucase) : bool := check_odl k && check_raw k.
+Definition check (k : ucase) : bool := check_odl k && (k_direct k || check_raw k).
